@@ -318,12 +318,12 @@ def check_loop(rep, prog, pfx="C01"):
         args = [st, cfg] + ([Const(False)] if fn == "parsePEL" else [])
         I.call(PT + fn, args)
         where = fn
-        calls = [e for e in I.events if e.kind == "call" and e.func == PT + fn]
+        calls = [e for e in I.events if e.kind == "call" and e.data[0] in (PT + "generatePH", PT + "generateUH")]
         seq = [e.data[0].split(".")[-1] for e in calls]
         rep.check(seq[:2] == ["generatePH", "generateUH"] and seq.count("generatePH") == 1 and seq.count("generateUH") == 1,
                   pfx + ".R2.once", "%s decodes PH then UH exactly once before the optional sections" % fn, where,
                   fn, "PH/UH are not decoded once each, in that order, first: %s" % seq)
-        sfs = [e for e in I.events if e.kind == "opaquecall" and e.data[0] == PT + "sectionFun" and e.func == PT + fn]
+        sfs = [e for e in I.events if e.kind == "opaquecall" and e.data[0] == PT + "sectionFun"]
         if not sfs or not sfs[0].loops:
             rep.fail(pfx + ".R2.once", where, fn, "the optional sections are not decoded inside a loop over the declared section count")
             continue
@@ -333,7 +333,7 @@ def check_loop(rep, prog, pfx="C01"):
                   L.node, "the optional-section loop does not run exactly (byte@27 - 2) times: %s" % why, node=L.node)
         body = I.events[L.events[0]:L.events[1]]
         hdr = [e for e in body if e.kind == "call" and e.data[0] == PT + "parseHeader"]
-        sf = [e for e in body if e.kind == "opaquecall" and e.data[0] == PT + "sectionFun" and e.func == PT + fn]
+        sf = [e for e in body if e.kind == "opaquecall" and e.data[0] == PT + "sectionFun"]
         g0 = L.body_guard
         one = len(hdr) == 1 and len(sf) == 1 and hdr[0].seq < sf[0].seq and hdr[0].guard == g0 and \
             strip_assume(sf[0].guard, g0)
@@ -362,7 +362,7 @@ def check_loop(rep, prog, pfx="C01"):
         # stride: the header read advances 8 per iteration (sectionFun is opaque here)
         idx = [k for k in L.carried if k.endswith(".index")]
         if with_append:
-            apps = [e for e in body if e.kind == "append" and e.func == PT + fn]
+            apps = [e for e in body if e.kind == "append" and e.loops and e.loops[-1] is L and reaches(I, e.data[1], a[1])]
             fresh = len(apps) == 1 and apps[0].seq > sf[0].seq and reaches(I, apps[0].data[1], a[1])
             rep.check(fresh and not L.breaks, pfx + ".R2.once", "parsePEL appends each section's own fresh dictionary once, no early exit",
                       where, L.node, "decoded sections are not appended exactly once each in log order (appends=%d, breaks=%d)" % (
